@@ -394,7 +394,10 @@ def build_ocaml(name, ml_dir, modules, driver):
     h.update(open(dpath, "rb").read())
     dig = h.hexdigest()
     stamp = exe + ".stamp"
-    if os.path.exists(exe) and os.path.exists(stamp) and open(stamp).read() == dig:
+    real = exe + ".bin"
+    h.update(b"wrapper-v1")
+    dig = h.hexdigest()
+    if os.path.exists(exe) and os.path.exists(real) and os.path.exists(stamp) and open(stamp).read() == dig:
         return exe
     bdir = os.path.join(WORK, "ocaml-" + name)
     shutil.rmtree(bdir, ignore_errors=True)
@@ -404,10 +407,16 @@ def build_ocaml(name, ml_dir, modules, driver):
         shutil.copy(p, bdir)
         local.append(os.path.basename(p))
     rc, out, err = sh(["ocamlfind", "ocamlopt", "-O3", "-unboxed-types"] if False else
-                      ["ocamlfind", "ocamlopt", "-w", "-a", "-package", "unix", "-linkpkg", "-o", exe] + local,
+                      ["ocamlfind", "ocamlopt", "-w", "-a", "-package", "unix", "-linkpkg", "-o", real] + local,
                       cwd=bdir, timeout=600)
     if rc != 0:
         raise BuildError("ocaml driver %s does not compile:\n%s" % (name, (out + err)[-3000:]))
+    # extracted structural recursion over long lists is not tail recursive: give the driver a large stack
+    with open(exe + ".tmp", "w") as f:
+        f.write('#!/bin/sh\nulimit -s unlimited 2>/dev/null || ulimit -s 4000000 2>/dev/null || ulimit -s $(ulimit -H -s) 2>/dev/null\n'
+                'exec "%s" "$@"\n' % real)
+    os.chmod(exe + ".tmp", 0o755)
+    os.replace(exe + ".tmp", exe)
     with open(stamp, "w") as f:
         f.write(dig)
     return exe
